@@ -173,6 +173,16 @@ def _stack_case(case):
         case.maxobs("max_proj_vs_own_components", oerr)
         case.check(oerr <= TOLERANCES["proj_rel"], "projections are not (X - mean) times the reported components", None,
                    err=oerr, chunks=ch, flat=flat)
+    # projections of a chosen subset, in the order asked for (unsorted, repeated, array or list)
+    if ok_shape:
+        sel_ = [int(v) for v in rng.permutation(N)[: max(2, N // 3)]]
+        if rng.random() < 0.5:
+            sel_ = sel_ + [sel_[0]]
+        arg_ = sel_ if rng.random() < 0.5 else np.array(sel_)
+        sub_ = np.asarray(clf.get_transform(arg_))
+        case.check(sub_.shape == (len(sel_), k) and float(np.abs(sub_ - tr[sel_]).max()) <= 1e-4 * max(scale, 1e-12) + 1e-6,
+                   "get_transform(labels) does not return the projections of the requested images in the requested order",
+                   None, labels=sel_[:8], shape=sub_.shape)
     labels = np.asarray(clf.labels)
     case.check(labels.shape == (N,) and np.issubdtype(labels.dtype, np.integer), "labels: wrong shape or dtype", None)
     if labels.shape == (N,):
@@ -271,8 +281,17 @@ def _wmd_case(case):
         zz = np.indices(shape) - (S - 1) / 2
         mask = (1 / (1 + np.exp(np.sqrt((zz ** 2).sum(0)) - S / 2.5))).astype(np.float32)
     k = int(rng.integers(1, 4))
+    legacy = tname in ("y60", "y4055") and rng.random() < 0.5     # the deprecated spelling of a y-axis range
     with _sched(p, p["iseed"]):
-        res = loader.classify(tmpl, mask, n_components=k, n_clusters=2, tilt=tilt, seed=0)
+        if legacy:
+            import warnings
+
+            with warnings.catch_warnings():
+                warnings.simplefilter("ignore")
+                res = loader.classify(tmpl, mask, n_components=k, n_clusters=2, tilt_range=tilt, seed=0)
+            case.count("classify_with_legacy_tilt_range")
+        else:
+            res = loader.classify(tmpl, mask, n_components=k, n_clusters=2, tilt=tilt, seed=0)
     case.nontrivial(p["iseed"])
     subs = np.asarray(loader.asnumpy())
     quats = mole.quaternion()
